@@ -121,7 +121,7 @@ def run(spec, R):
             R.case(stable_hash((fmt, dump_batch(batch))), any(len(st.tree.leaves) >= 2 for t in batch for st in t))
             work = copy.deepcopy(batch)
             try:
-                text = to_string(work, format=fmt)
+                text = to_string(work, format=(fmt + ' ').strip())       # a fresh string object, as a command line delivers it
             except Exception as e:
                 R.violation(f'{fmt}:raises', f'to_string(format={fmt!r}) raised {e!r}', wit)
                 continue
